@@ -250,6 +250,14 @@ def check_batch(args) -> Dict[str, Any]:
                 secs["struct_defs"] = {"GATEWAY": {"fields": {"x": "int32"}}}
                 secs["message_defs"]["M_SHARED"]["fields"]["g"] = "GATEWAY"
             prog = defx.Program({"root.yaml": secs})
+            if kind in ("struct-message", "message-struct"):
+                # ... and one name for a struct and for a message of another file of the closure, then used as a field type: refused,
+                # or laid out by every output as what the parser took it for
+                first = {"message_defs": {"POSE": {"id": 6010, "fields": {"q": "double[4]"}}}} if kind == "struct-message" else {"struct_defs": {"POSE": {"fields": {"q": "double[4]"}}}}
+                second = {"struct_defs": {"POSE": {"fields": {"x": "int32"}}}} if kind == "struct-message" else {"message_defs": {"POSE": {"id": 6010, "fields": {"x": "int32"}}}}
+                root = {"imports": ["lib/pose.yaml"], **second}
+                root.setdefault("message_defs", {})["USER"] = {"id": 6011, "fields": {"pose": "POSE", "n": "int32"}}
+                prog = defx.Program({"root.yaml": root, "lib/pose.yaml": first})
             meta = {}
         elif named:
             # a field carries a name the generated classes use themselves: the file is either refused, or - when accepted - described
@@ -421,7 +429,7 @@ def run(tier: str) -> int:
     batches = [(i, b) for i, b in enumerate(core.chunks(core.shuffled(seqs, "c04"), 250))]
     multi = [b for b in batches if SHAPES[b[0] % len(SHAPES)] != "single"]
     rebuilds = [(i, b, "rebuild") for i, b in (multi[:4] if tier == "quick" else multi)]
-    names = [(9100 + i, [], "named", "shared:" + k) for i, k in enumerate(("constant", "string", "alias", "struct"))]
+    names = [(9100 + i, [], "named", "shared:" + k) for i, k in enumerate(("constant", "string", "alias", "struct", "struct-message", "message-struct"))]
     names += [(9000 + i, [], "named", n) for i, n in enumerate(("type_id", "type_name", "type_hash", "type_source", "type_def", "type_size", "hexdump", "size_type"))]
     res = core.pmap(check_batch, batches + rebuilds + names)
     core.close_pool()
